@@ -137,3 +137,11 @@ package errutil
 //@   ensures origErr != nil ==> result != nil
 //@   ensures[C07] origErr != nil ==> typeis(rootOf(result), *barriers.barrierErr) && rootOf(result).(*barriers.barrierErr).maskedErr == origErr
 //@   ensures[C16] origErr != nil ==> $cap == lvl - 1 - depth
+
+// ---- As (C14) ----
+//@ func As
+//@   props C14 C13 C07
+//@   maypanic
+//@   ensures result == asSpec(err, elemT(typeof(target)), target)
+//@   loop 1: invariant asSpec(err, elemT(typeof(target)), target) == asSpec(c, elemT(typeof(target)), target)
+//@   loop 2: invariant forall j int :: 0 <= j && j < $n ==> !asSpec(causes(c)[j], elemT(typeof(target)), target)
